@@ -442,7 +442,7 @@ func (g *caseGen) represent(e int, fs []Field) []Instr {
 var initWins = []int{0, 1, 10, 65535, 1<<31 - 1}
 var incs = []int{1, 2, 9, 10, 100, 16384, 65535, 70000, 1 << 20, 1<<31 - 1}
 
-var tabSizes = []uint32{0, 1, 31, 100, 1000, 4096, 4097, 8192, 65536}
+var tabSizes = []uint32{0, 1, 31, 100, 1000, 4096, 4097, 8192, 65536, 1 << 20}
 
 // settings emits one SETTINGS frame of endpoint e: a LIST of (identifier, value) pairs in which an
 // identifier may occur more than once (the values are processed in order, so the last one is what e
